@@ -33,6 +33,7 @@ def run(ctx, rep):
     import api_rules as AR
     AR.check_frame_api(fx, rep, "C03.api")
     AR.check_mapper_constructors(fx, rep, "C03.0")
+    AR.check_mapping_wiring(fx, rep, "C03.api")
     R1.check_remap_frame_mapper(fx, rep, "C03.4")
     LR.check_frame_comparators(fx, rep, "C03.4")
     LR.check_section_slices(fx, rep, "C03.4")
